@@ -167,4 +167,81 @@ theorem earlier_location_supplies (ask : ρ → Ans δ) (pre post : List ρ) (r 
 example : multiGet (fun n : Nat => if n = 2 then Ans.ok "v2" else if n = 5 then Ans.ok "v5" else Ans.noCand) [0, 1, 2, 3, 5]
     = (Ans.ok "v2", [0, 1, 2]) := by decide
 
+/-! ### merged location lists keep the listed order -/
+
+theorem mergeFold_mem (xs acc : List String) (y : String) :
+    y ∈ xs.foldl (fun acc x => if acc.contains x then acc else acc ++ [x]) acc ↔ y ∈ acc ∨ y ∈ xs := by
+  induction xs generalizing acc with
+  | nil => simp
+  | cons x xs ih =>
+    simp only [List.foldl_cons]
+    rw [ih]
+    by_cases hc : acc.contains x = true
+    · simp only [hc, if_true, List.mem_cons]
+      have : x ∈ acc := by simpa using hc
+      constructor
+      · rintro (h | h)
+        · exact Or.inl h
+        · exact Or.inr (Or.inr h)
+      · rintro (h | h | h)
+        · exact Or.inl h
+        · subst h; exact Or.inl this
+        · exact Or.inr h
+    · simp only [hc, Bool.false_eq_true, if_false, List.mem_append, List.mem_singleton, List.mem_cons]
+      constructor
+      · rintro ((h | h | h) | h)
+        · exact Or.inl h
+        · exact Or.inr (Or.inl h)
+        · cases h
+        · exact Or.inr (Or.inr h)
+      · rintro (h | h | h)
+        · exact Or.inl (Or.inl h)
+        · exact Or.inl (Or.inr (Or.inl h))
+        · exact Or.inr h
+
+/-- nothing is lost and nothing invented by the merge -/
+theorem mergeLocations_mem (cmd file : List String) (y : String) :
+    y ∈ mergeLocations cmd file ↔ y ∈ cmd ∨ y ∈ file := by
+  unfold mergeLocations
+  rw [mergeFold_mem]; simp
+
+theorem mergeFold_prefix (xs acc : List String) :
+    acc <+: xs.foldl (fun acc x => if acc.contains x then acc else acc ++ [x]) acc := by
+  induction xs generalizing acc with
+  | nil => exact List.prefix_refl _
+  | cons x xs ih =>
+    simp only [List.foldl_cons]
+    by_cases hc : acc.contains x = true
+    · simp only [hc, if_true]; exact ih acc
+    · simp only [hc, Bool.false_eq_true, if_false]
+      exact (List.prefix_append acc [x]).trans (ih _)
+
+/-- **merge_keeps_command_line_first**: locations without repetition given on the command line stay in front, in their order -/
+theorem merge_keeps_command_line_first (cmd file : List String) (hn : cmd.Nodup) :
+    cmd <+: mergeLocations cmd file := by
+  unfold mergeLocations
+  rw [List.foldl_append]
+  have h1 : cmd.foldl (fun acc x => if acc.contains x then acc else acc ++ [x]) [] = cmd := by
+    suffices H : ∀ (xs acc : List String), (acc ++ xs).Nodup →
+        xs.foldl (fun acc x => if acc.contains x then acc else acc ++ [x]) acc = acc ++ xs by
+      simpa using H cmd [] (by simpa using hn)
+    intro xs
+    induction xs with
+    | nil => intro acc _; simp
+    | cons x xs ih =>
+      intro acc hnd
+      simp only [List.foldl_cons]
+      have hx : acc.contains x = false := by
+        have := List.nodup_append.1 hnd
+        simp only [List.contains_eq_mem, decide_eq_false_iff_not]
+        intro hm
+        exact this.2.2 x hm x (by simp) rfl
+      simp only [hx, Bool.false_eq_true, if_false]
+      rw [ih (acc ++ [x]) (by simpa [List.append_assoc] using hnd)]
+      simp
+  rw [h1]
+  exact mergeFold_prefix file cmd
+
+theorem merge_example : mergeLocations ["zeta", "alpha"] ["common", "alpha"] = ["zeta", "alpha", "common"] := by decide
+
 end RV.Repos
